@@ -256,6 +256,9 @@ func (s *Service) HandleLocalStorage(logger *zap.Logger, nilShardMap *map[uint64
 				zap.Error(err))
 			if !errno.Equal(err, errno.ShardNotFound) && !errno.Equal(err, errno.IndexNotFound) {
 				retryNeeded = true
+				// the shard is still in the store: keep its catalogue entry until the delete succeeds, otherwise a
+				// store restart before the retry no longer loads the shard and its directory stays on disk for good
+				continue
 			}
 		}
 
